@@ -165,7 +165,7 @@ def ensure(unit):
             except OSError:
                 pass
             return d
-        # drop stale generations of this unit: keep the 8 most recently used ones, and never one used in the last two hours
+        # drop stale generations of this unit: keep the 8 most recently used ones, and never one used in the last twenty minutes (a check run takes a few minutes; a run that loses a generation to a concurrent one rebuilds it)
         # (concurrent runs on other trees may be reading them)
         gens = []
         for old in os.listdir(os.path.join(WORK, "facts")):
@@ -177,7 +177,7 @@ def ensure(unit):
                     pass
         gens.sort(reverse=True)
         for mt, pth in gens[8:]:
-            if time.time() - mt > 7200:
+            if time.time() - mt > 1200:
                 shutil.rmtree(pth, ignore_errors=True)
         shutil.rmtree(d, ignore_errors=True)
         os.makedirs(d)
